@@ -284,6 +284,13 @@ func Tokenize(source string) ([]Token, error) {
 				err = fmt.Errorf("string at row %d, column %d has not been terminated", ogRow, ogColumn)
 				break
 			}
+
+			// Account for line breaks within the literal.
+			if lines := strings.Split(source[ogI:i], "\n"); len(lines) > 1 {
+				row += len(lines) - 1
+				ogColumn = startIndex
+				ogI = i - len(lines[len(lines)-1])
+			}
 		} else if matches := regexp.MustCompile(`(?s)^\/\*(.*?)\*\/`).FindStringSubmatch(source[i:]); matches != nil {
 			// Multiline comment.
 			token = newToken(matches[1], COMMENT, ogRow, ogColumn)
